@@ -641,7 +641,7 @@ func (f *Frame) envAtWith(b *ssa.BasicBlock, st *State) *Env {
 	}
 	// named allocs (address-taken locals): bind to their current content
 	for _, ai := range f.allocL {
-		if ai.a.Comment == "" || ai.ref == "" {
+		if ai.a == nil || ai.a.Comment == "" || ai.ref == "" {
 			continue
 		}
 		if !ai.a.Block().Dominates(b) {
